@@ -448,6 +448,40 @@ func genHTTP(r *kit.Rand) []string {
 	}
 }
 
+// structural alphabet: comments, continuation lines, unterminated literals and escapes are all
+// combinations of these
+var structAlphabet = []string{"/", "\n", "'", "\"", "\\", "a", "1", " ", "|", ".", "(", ")", "-", "é"}
+
+// directed comment cases: every token kind, then `//…` comment lines, then continuation lines
+func commentCases() [][]string {
+	toks := []string{"", "a", "1", "1.5", "1s", "'s'", "\"r\"", "/re/", "(", ")", "[", "]", "|", ".", "@", ",", "*", "+", "-", "!", "==", "=~", "=", "lambda:", "TRUE", "var", "AND", "a(", "a()", "a|b()", "a.b", "var x = 1"}
+	comments := []string{"//", "// c", "//c", "// c\n// d", "//\n//", "// é", "///", "// c //"}
+	conts := []string{"", "/", "//", "/x", " /", "/ ", "/\n/", "//\n/", "/*", "/\n", "\t/", "/é", "/'", "/\"", "/\\"}
+	sufs := []string{"", "\n", "\na", "\n|b()", "\n/ 2", "\n.c()"}
+	var cases [][]string
+	for _, t := range toks {
+		for _, c := range comments {
+			for _, k := range conts {
+				for _, sf := range sufs {
+					for _, sep := range []string{" ", "\n"} {
+						s := t + sep + c + "\n" + k + sf
+						cases = append(cases, lexLines(s, "prog", "fmt", "lambda"))
+					}
+				}
+			}
+		}
+	}
+	// comments between chain links, inside lambdas, before EOF without newline
+	for _, s := range []string{
+		"stream\n// c\n/\n|from()", "stream\n    // c\n    |from()\n    // d\n    /\n    .measurement('m')", "stream|from()// c", "stream|from() // c\n/",
+		"stream|where(lambda: 1 // c\n/ 2 > 0)", "stream|where(lambda: \"a\" // c\n/\n\"b\" > 0)", "stream|eval(lambda: 1 // c\n  / // d\n  2)", "lambda: 1 // c\n/", "1 // c\n/ 2",
+		"var x = 1 // c\n/\nstream", "// c\n/\nvar x = 1", "stream\n|from() // a\n// b\n/ c\n|log()", "stream|from()\n//\n/\n//\n|log()", "stream // c\n/", "// only", "//", "//\n", "//\n/", "//\n/\n", "/ //\n/",
+	} {
+		cases = append(cases, lexLines(s, "prog", "fmt", "lambda", "task", "pipeS"))
+	}
+	return cases
+}
+
 func lexLines(s string, kinds ...string) []string {
 	e := kit.Esc(s)
 	ls := []string{"lex " + e}
@@ -517,6 +551,52 @@ func generate(f kit.Flags) [][]string {
 	for L := 0; L <= maxLen; L++ {
 		c := 0
 		rec("", 0, L, &c)
+	}
+
+	// (2b) ALL strings up to length 5 (quick) / 6 (thorough) over the STRUCTURAL alphabet, in batches
+	// through ast.Parse, tick.Format and ast.ParseLambda (the longest length sharded over the seed runs)
+	sMax := 5
+	if thorough {
+		sMax = 6
+	}
+	if v := f.Extra["smaxlen"]; v != "" {
+		fmt.Sscanf(v, "%d", &sMax)
+	}
+	var batch []string
+	flush := func() {
+		if len(batch) > 0 {
+			cases = append(cases, []string{"pbatch - " + strings.Join(batch, " ")})
+			batch = nil
+		}
+	}
+	var srec func(prefix string, depth, L int, counter *int)
+	srec = func(prefix string, depth, L int, counter *int) {
+		if depth == L {
+			i := *counter
+			*counter++
+			if (L < sMax && shard == 0) || (L == sMax && i%nshards == shard) {
+				batch = append(batch, kit.Esc(prefix))
+				if len(batch) >= 96 {
+					flush()
+				}
+			}
+			return
+		}
+		for _, a := range structAlphabet {
+			srec(prefix+a, depth+1, L, counter)
+		}
+	}
+	for L := 1; L <= sMax; L++ {
+		c := 0
+		srec("", 0, L, &c)
+	}
+	flush()
+
+	// (2c) directed comment cases (all of them, every run; sharded)
+	for i, c := range commentCases() {
+		if i%nshards == shard {
+			cases = append(cases, c)
+		}
 	}
 
 	// (3) generated: mutated real scripts, API chains, lambdas, JSON, UDF peers
